@@ -58,6 +58,9 @@ def make_config(sc):
            'runs': {'invocations': 2, 'min_iteration_time': 0},
            'benchmark_suites': {'S': suite}, 'executors': {'E': {'path': '.', 'executable': 'exe'}},
            'experiments': {'T': {'suites': ['S'], 'executions': ['E']}}}
+    if sc.get('sudo_cmd'):
+        # a benchmark whose own command starts with `sudo` (never executed: scripted Popen)
+        cfg['executors']['E'] = {'executable': 'sudo', 'args': 'exe'}
     if sc['env']:
         cfg['runs']['env'] = dict(sc['env'])
     if sc['path'] == 'timeout':
@@ -158,6 +161,13 @@ def trace_oracle(ck, inp, sc, trace, sudo, ending, num_cores):
         return
     if n_minimize != 1 or trace[0]['t'] != 'minimize':
         ck.oracle_fail('minimize_once_first', inp, {'trace': trace})
+    if any(v == 'kill' for v, _a in sudo) and not (granted(sc['report'], 'nice') or granted(sc['report'], 'shield')):
+        # nothing was granted: the commands are not wrapped, a kill must not go through sudo/denoise
+        ck.oracle_fail('denoise_only_as_granted', inp, {'sudo_calls': [a for v, a in sudo if v == 'kill']},
+                       {'what': 'kill'})
+    for v, a in sudo:
+        if v == 'other':
+            ck.oracle_fail('denoise_only_as_granted', inp, {'sudo_call': a}, {'what': 'unknown call'})
     if settings_changed(sc['report']) and n_restore != 1:
         ck.oracle_fail('restore_once', inp, {'restores': n_restore, 'trace': trace, 'ending': ending},
                        {'path': sc['path'], 'restores': 'none' if n_restore == 0 else 'many'})
@@ -215,6 +225,8 @@ def check_sessions(ck, scenarios):
                                 'json nice=%s shield=%s' % (sc['report']['nice'], sc['report']['shield'])))
         if sc['no_denoise']:
             ck.count('-D')
+        if sc.get('sudo_cmd'):
+            ck.count('command-starts-with-sudo:%s%s' % (sc['path'], ':-D' if sc['no_denoise'] else ''))
         # ------------------------------------------------ canonical trace
         trace = []
         for e in events:
@@ -741,6 +753,18 @@ def gen_scenarios(ck, quick):
                     'profiling': False, 'no_denoise': False, 'env': rng.choice(ENVS),
                     'cset': rng.choice([None, '/usr/bin/cset']), 'num_cores': rng.choice([1, 4, 64]), 'at': 2,
                     'restore': 'ok'})
+    # a command that itself starts with `sudo` and has to be killed (Ctrl-C; thorough: time-out too):
+    # with -D and when nothing was granted no sudo/denoise call of any kind may occur
+    not_granted = [{'kind': 'nonjson', 'msg': 'password'}, {'kind': 'nonjson', 'msg': 'sudo_missing'},
+                   {'kind': 'json', 'nice': 'no', 'shield': 'no', 'others': ['yes', 'yes', 'yes']},
+                   {'kind': 'json', 'nice': None, 'shield': None, 'others': ['failed', 'yes', 'yes']}]
+    some_granted = [{'kind': 'json', 'nice': 'yes', 'shield': 'no', 'others': ['yes', 'yes', 'yes']},
+                    {'kind': 'json', 'nice': 'yes', 'shield': 'yes', 'others': ['yes', 'yes', 'yes']}]
+    for path in ['interrupt'] + ([] if quick else ['timeout']):
+        for rep, noD in [(r_, False) for r_ in not_granted + some_granted] + [(rng.choice(reps), True)] * 2:
+            out.append({'kind': 'session', 'report': rep, 'path': path, 'profiling': False, 'no_denoise': noD,
+                        'sudo_cmd': True, 'env': rng.choice(ENVS), 'cset': None, 'num_cores': 4,
+                        'at': rng.choice([1, 2]), 'restore': 'ok'})
     for path in PATHS:
         for profiling in (False, True):
             out.append({'kind': 'session', 'report': rng.choice(reps), 'path': path, 'profiling': profiling,
